@@ -268,6 +268,132 @@ def check_shape(case):
     return out
 
 
+# ---- owned heap content (E3): the same run under different fill patterns of fresh allocations -------------------------
+# ASan does not report a read of a member or array entry that was allocated but never written.  Its allocator can
+# however be told which byte fresh memory holds; the result of a valid run may not depend on it ("a result never depends
+# on memory outside the arrays the engine was given").  0x00 reads as 0 / 0.0 / false, 0x7f.. as a huge positive
+# number, 0xbe.. (ASan's default) as a huge negative one, 0xff.. as -1 / NaN: each run is executed under every pattern,
+# one child process per pattern (the option is read when the runtime starts).
+FILLS = [0x00, 0x7f, 0xbe, 0xff]
+
+
+def fill_cases(tier, seed0):
+    sp = dict(spaces("thorough"))
+    names = ["grid2x1x1:rrr", "grid3x2x1:ppp", "grid2x2x2:prp", "grid1x1x1:rrr", "graph-isolated", "graph-k4", "graph-single-selfloop"]
+    if tier == "thorough":
+        names += ["grid3x3x2:rpr", "grid1x5x1:ppp", "graph-parallel+selfloop", "graph-no-edges"]
+    k = 0
+    for engine in ("euler", "tauleap", "gillespie"):
+        for spname in names:
+            space = sp[spname]
+            n = len(space["nodes"]) if space["type"] == "graph" else space["w"] * space["h"] * space["d"]
+            for pol, samp in SAMPLING:
+                for isp in (("auto", "Poisson") if tier == "quick" else ("auto", "none", "Poisson", "redist")):
+                    k += 1
+                    ns = 2 + k % 2
+                    rx = REACTIONS[2] if ns == 2 else REACTIONS[3]
+                    stname = ("small-int", "above-100", "zeros")[k % 3]
+                    spec = {"species": [{"label": "ABC"[s], "D": [{"default": 0.5, "e1": 0.25}, 0.0, 0.3][s]} for s in range(ns)],
+                            "reactions": rx, "envs": ["e0", "e1"], "space": space, "state": state_for(stname, ns, n)}
+                    sc = {"system": spec, "time_step": 0.125, "policy": pol, "seed": 1000 * seed0 + k % 3, "isp": isp}
+                    sc.update(samp)
+                    yield {"sub": "heap-fill", "engine": engine, "space": spname, "state_class": stname, "script": sc}
+
+
+def _digest(res):
+    import hashlib
+    import numpy as np
+    h = hashlib.sha1()
+    for x in res[:2]:
+        a = np.frombuffer(x).copy()
+        a[np.isnan(a)] = np.nan          # one NaN for all (sign / payload are the compiler's choice)
+        h.update(a.tobytes())
+        h.update(b"|")
+    h.update(str(res[2]).encode())
+    return h.hexdigest()
+
+
+def fill_child():
+    """Child process (started with its own ASAN_OPTIONS): runs the cases read from stdin on the sanitized build and prints
+    one digest per case."""
+    import json
+    import sys
+    cases = json.load(sys.stdin)
+    out = []
+    for i, case in enumerate(cases):
+        sys.stderr.write("VERIF-AT fill-case %d\n" % i)
+        sys.stderr.flush()
+        try:
+            out.append(_digest(run_script(case, "san")))
+        except Exception as ex:     # a rejected script is the same under every pattern
+            out.append("exception:" + type(ex).__name__)
+    sys.stdout.write("\nVERIF-FILL-DIGESTS " + json.dumps(out) + "\n")
+
+
+def run_fills(cases):
+    """Returns {fill: (returncode, digests or None, stderr tail)} for the case list, the children run side by side."""
+    import json
+    import os
+    import subprocess
+    import sys
+    base = dict(os.environ)
+    procs = {}
+    for fill in FILLS:
+        env = dict(base)
+        env["ASAN_OPTIONS"] = base.get("ASAN_OPTIONS", "") + ":malloc_fill_byte=%d:max_malloc_fill_size=16777216" % fill
+        code = "import sys; sys.path.insert(0, %r); from checks import c11_memsafety as m; m.fill_child()" % core.VERIF
+        procs[fill] = subprocess.Popen([sys.executable, "-c", code], env=env, stdin=subprocess.PIPE, stdout=subprocess.PIPE,
+                                       stderr=subprocess.PIPE, cwd=core.VERIF)
+    payload = json.dumps(cases).encode()
+    import threading
+    res = {}
+
+    def wait(fill, p):
+        try:
+            o, e = p.communicate(payload, timeout=900)
+        except subprocess.TimeoutExpired:
+            p.kill()
+            o, e = p.communicate()
+            res[fill] = (-999, None, e.decode("utf-8", "replace")[-3000:])
+            return
+        dig = None
+        for line in o.decode("utf-8", "replace").splitlines():
+            if line.startswith("VERIF-FILL-DIGESTS "):
+                dig = json.loads(line[len("VERIF-FILL-DIGESTS "):])
+        res[fill] = (p.returncode, dig, e.decode("utf-8", "replace")[-3000:])
+    ths = [threading.Thread(target=wait, args=(f, p)) for f, p in procs.items()]
+    for t in ths:
+        t.start()
+    for t in ths:
+        t.join()
+    return res
+
+
+def check_fills(cases):
+    """[(key, what, case)] for a list of heap-fill cases."""
+    out = []
+    res = run_fills(cases)
+    for fill, (rc, dig, err) in sorted(res.items()):
+        if dig is None or len(dig) != len(cases):
+            at = lc.announced(err) or ""
+            i = int(at.split()[-1]) if at.startswith("fill-case") else 0
+            cls = "hang" if rc == -999 else classify(err)
+            out.append(("C11:heap-fill:%s:child-died:%s" % (cases[i]["engine"], cls),
+                        "fill byte 0x%02x, exit %r at case %d: %s" % (fill, rc, i, err[-1500:]), cases[i]))
+    if out:
+        return out
+    for i, case in enumerate(cases):
+        ds = {fill: res[fill][1][i] for fill in FILLS}
+        if len(set(ds.values())) > 1:
+            groups = {}
+            for f, d in ds.items():
+                groups.setdefault(d, []).append("0x%02x" % f)
+            out.append(("C11:heap-fill:%s:%s:result-depends-on-the-content-of-fresh-memory" % (case["engine"], case["script"]["policy"]),
+                        "the run gives %d different results under the fill bytes %s (space %s, isp %s)"
+                        % (len(groups), sorted(groups.values()), case["space"], case["script"]["isp"]), case))
+    return out
+
+
 def classify(detail):
     """Short class of a sanitizer / assertion report found in the worker's stderr."""
     d = detail
@@ -339,6 +465,8 @@ def _work(job):
 def check_case(case):
     if case.get("sub") == "shape":
         return check_shape(case)
+    if case.get("sub") == "heap-fill":
+        return [(k, w) for k, w, _ in check_fills([case])]
     c10.VARIANT, c10.PID = "san", "C11"
     return c10.check_case(case)
 
@@ -387,6 +515,15 @@ def run(ctx):
             continue
         core.merge(ctx, r)
         done += job[1] - job[0]
+    fc = list(fill_cases(ctx.tier, ctx.seed))
+    fres = check_fills(fc)
+    for key, what, case in fres:
+        ctx.violation(key, what, case)
+    ctx.add(states=len(fc), transitions=len(fc) * len(FILLS), traces=len(fc) * len(FILLS), evaluations=len(fc))
+    ctx.subspace("heap-fill: 3 engines x %d spaces x %d sampling entries x processing modes, each run under the %d fill "
+                 "patterns %s of freshly allocated memory (one child process per pattern): identical results"
+                 % (len(fc) // (3 * len(SAMPLING) * (2 if ctx.tier == "quick" else 4)), len(SAMPLING), len(FILLS),
+                    "/".join("0x%02x" % f for f in FILLS)), len(fc), len(fc), exhaustive=True)
     ctx.subspace("script-shape catalogue on the sanitized build (3 engines x %d spaces x 9 sampling entries x 4 processing modes x "
                  "5 state classes, diagonal sub-lattice%s; + 3 engines x 8 larger network shapes (orders 4-6, coefficient 5, 5 species x 6 "
                  "reactions, 3 and 5 environments) x 3 spaces x state classes) each compared with the plain build"
